@@ -3,6 +3,7 @@ import os, sys, json, hashlib, re, random
 import vlib
 sys.path.insert(0, os.path.join(vlib.VERIF, 'tools'))
 import gen_c03_progs as G
+import gen_c03_abi as A
 
 IFACES = ['interp', 'mirinterp', 'gen', 'lazy', 'bb']
 # every shape tools/gen_c03_progs.py knows (`alloca` in inlinable functions is back since C04's fixes of MIR_link's
@@ -12,7 +13,17 @@ PDIR = os.path.join(vlib.BUILD, 'c03p')
 
 
 def build():
-    return vlib.build_harness('c03_ifaces', ['c03_ifaces.c'], extra_flags=['-DPROG_H="%s"' % vlib.file_hash([os.path.join(vlib.VERIF, 'harness', 'c03_prog.h')])])
+    # the C signature family (tools/gen_c03_abi.py) is generated into the build directory; its hash is part of the
+    # include path and therefore of the harness's cache key
+    hdr = A.sigs_header()
+    hd = os.path.join(vlib.BUILD, 'c03sig-' + hashlib.sha256(hdr.encode()).hexdigest()[:16])
+    if not os.path.exists(os.path.join(hd, 'c03_sigs.h')):
+        os.makedirs(hd, exist_ok=True)
+        tmp = os.path.join(hd, 'c03_sigs.h.tmp%d' % os.getpid())
+        with open(tmp, 'w') as f:
+            f.write(hdr)
+        os.rename(tmp, os.path.join(hd, 'c03_sigs.h'))
+    return vlib.build_harness('c03_ifaces', ['c03_ifaces.c'], extra_flags=['-I' + hd, '-DPROG_H="%s"' % vlib.file_hash([os.path.join(vlib.VERIF, 'harness', 'c03_prog.h')])])
 
 
 def write_prog(text, tag):
@@ -108,6 +119,25 @@ def disagree(outs):
     return None
 
 
+def settle(chk, exe, path, specs, cs, opt, outs, d):
+    """A disagreement was seen: which two runs are the witness?  Normally (reference = run 0, run d).  A well-defined
+    program is deterministic under every interface, so a run that does not reproduce (e.g. the interpreter shim reading
+    beyond the register save area) while another one is clean and stable is itself the disagreement: the stable run
+    becomes the reference.  Only when no run at all is clean and stable the program says nothing (counted)."""
+    reruns = [run_prog(exe, path, specs, cs, opt) for _ in range(2)]
+    stable = [all(r[i] == outs[i] for r in reruns) for i in range(len(specs))]
+    if all(stable):
+        return (1 if d == 0 else 0, d)
+    good = [i for i in range(len(specs)) if stable[i] and GEN_FAILED not in outs[i]
+            and not any(x in outs[i] for x in ('CRASH', 'ERROR', 'NOANSWER', 'CHANGED', 'GENADDR'))]
+    un = [i for i in range(len(specs)) if not stable[i]]
+    if not good:
+        chk.dist('unstable_everywhere', 1)
+        return None
+    chk.dist('unstable_run', specs[un[0]].split(':')[0] if '/' not in specs[un[0]] else 'mixed')
+    return (good[0], un[0])
+
+
 # ---------------------------------------------------------------- shrinking
 
 KEEP_RE = re.compile(r'^\s*(\w+:\s*$|local\b|global\b|mov gv, gsv|mov gsv, gv|ret\b|alloca\b|va_\w+\b|laddr\b|jmpi\b|add t1, t1, i64:\(t3\)|mov i64:\(al\d+\)|mov i64:24\(al\d+\)|endfunc|endmodule|import|export|forward|'
@@ -179,6 +209,104 @@ def shrink_prog(exe, text, specs2, calls, opt, site=None):
     return text2, calls
 
 
+# ---------------------------------------------------------------- register-file boundary signatures (round 3)
+
+def abi_specs(rng, nmod):
+    """every interface alone, then mixed assignments (all 12 non-uniform pairs for two modules: the caller's and the
+    callee's engine both matter at a call through a public address), one module-by-module link"""
+    allm = ','.join(str(i) for i in range(nmod))
+    specs = ['%s:%s' % (i, allm) for i in IFACES]
+    base = ['interp', 'gen', 'lazy', 'bb']
+    if nmod == 2:
+        specs += ['%s:0/%s:1' % (a, b) for a in base for b in base if a != b]
+    else:
+        seen = set()
+        while len(seen) < 10:
+            ifs = tuple(rng.choice(base) for _ in range(nmod))
+            if len(set(ifs)) > 1:
+                seen.add(ifs)
+        specs += ['/'.join('%s:%d' % (i, m) for m, i in enumerate(ifs)) for ifs in sorted(seen)]
+    i = rng.choice(base)
+    specs.append('/'.join('%s:%d' % (i, m) for m in range(nmod)))
+    return specs
+
+
+def abi_report(chk, exe, d, specs, calls, opt, pair, outs):
+    specs2 = [specs[pair[0]], specs[pair[1]]]
+
+    def bad(t, cs):
+        o = run_prog(exe, write_prog(t, 'shrink'), specs2, cs, opt, timeout=60)
+        if 'CRASH' in o[0] or 'ERROR' in o[0] or 'NOANSWER' in o[0]:
+            return False
+        return disagree(o) is not None
+    text = A.emit(d)
+    if bad(text, calls):
+        d, calls = A.shrink(d, calls, bad)
+        text = A.emit(d)
+    outs2 = run_prog(exe, write_prog(text, 'final'), specs2, calls, opt)
+    sig = 'ifaces:' + hashlib.sha1((text + '|'.join(calls) + '|'.join(specs2)).encode()).hexdigest()[:12]
+    sigs = ['%s: %s' % (c['name'], A.sig_text(c)) for c in d['callees']]
+    what = 'interfaces disagree on a call through a public address: [%s] -> %s   vs   [%s] -> %s   (opt %d, calls: %s; signatures: %s)' % (
+        specs2[0], outs2[0][:160], specs2[1], outs2[1][:160], opt, ' ; '.join(calls), ' | '.join(sigs)[:400])
+    chk.finding(sig, dict(kind='ifaces', text=text, specs=specs2, calls=calls, opt=opt, outs=outs2,
+                          original_features=A.features(d)), what)
+
+
+def run_abi(chk, exe, found_limit=3):
+    """Programs of tools/gen_c03_abi.py: one sweep = every number of fp (0..9) / int (0..7) parameters before a block of
+    every class and size kind, for MIR-to-MIR calls and for the C signature family (entries from C, C callbacks)."""
+    quick = chk.tier == 'quick'
+    rng = chk.rng('abi')
+    found = 0
+    seen_sites = set()
+    for sw in range(1 if quick else 6):
+        shapes, sfam = A.sweep(rng)
+        k = 0
+        while shapes or sfam:
+            sh, shapes = shapes[:5], shapes[5:]
+            sf, sfam = sfam[:5], sfam[5:]
+            d = A.gen_desc(rng, sh, sf)
+            text = A.emit(d)
+            calls = A.gen_calls(rng, d)
+            opt = rng.choice([0, 1, 2, 3])
+            specs = abi_specs(rng, d['nmod'])
+            nolog = [c['name'] for c in d['callees'] if not c.get('tab')]
+            if nolog and rng.random() < 0.2:
+                calls = ['gen %s' % rng.choice(nolog)] + calls   # explicit MIR_gen before the first call
+            path = write_prog(text, 'abi')
+            outs = run_prog(exe, path, specs, calls, opt)
+            for s, o in zip(specs, outs):
+                chk.count((text, s, tuple(calls), opt), nontrivial=True)
+                chk.dist('iface_runs', s.split(':')[0] if '/' not in s else 'mixed')
+            for b in A.boundary_stats(d):
+                chk.dist('abi_boundary', b)
+            for ft in A.features(d):
+                chk.dist('abi_features', ft)
+            chk.dist('abi_programs', 'opt%d' % opt)
+            if k == 0 and sw == 0:
+                chk.sample('register-file boundary program: ' + ' | '.join('%s: %s' % (c['name'], A.sig_text(c)) for c in d['callees'])[:600]
+                           + ' ; calls: ' + ' ; '.join(calls))
+            k += 1
+            for s, o in zip(specs, outs):
+                if GEN_FAILED in o:
+                    site = death_site(o)
+                    chk.dist('generator_died_in', site)
+                    if site not in seen_sites:
+                        seen_sites.add(site)
+                        if report_death(chk, exe, site, dict(text=text, features=A.features(d)), [specs[0], s], calls, opt):
+                            found += 1
+            di = disagree(outs)
+            if di is not None:
+                pair = settle(chk, exe, path, specs, calls, opt, outs, di)
+                if pair is None:
+                    continue
+                found += 1
+                abi_report(chk, exe, d, specs, calls, opt, pair, outs)
+            if found >= found_limit:
+                return found
+    return found
+
+
 # ---------------------------------------------------------------- run
 
 def one_program(chk, exe, rng, k, quick):
@@ -226,12 +354,10 @@ def one_program(chk, exe, rng, k, quick):
                     deaths.append((site, prog, [specs[0], s], cs, opt))
         d = disagree(outs)
         if d is not None:
-            # a program whose reference run is not reproducible says nothing about the interfaces
-            again = [run_prog(exe, path, [specs[0]], cs, opt)[0] for _ in range(3)]
-            if any(a != outs[0] for a in again):
-                chk.dist('unstable_reference', 1)
+            pair = settle(chk, exe, path, specs, cs, opt, outs, d)
+            if pair is None:
                 continue
-            res = (prog, specs, cs, opt, d, outs)
+            res = (prog, specs, cs, opt, pair, outs)
             break
     if res is None and k % 3 == 0:
         # configuration: a user code allocator whose regions are > 2 GiB apart (thunks take their long form, calls
@@ -244,7 +370,7 @@ def one_program(chk, exe, rng, k, quick):
             chk.dist('iface_runs', s.split(':')[0])
         d = disagree(outs)
         if d is not None and not any(GEN_FAILED in o for o in outs):
-            res = (prog, fspecs, calls, opt, d, outs)
+            res = (prog, fspecs, calls, opt, (1 if d == 0 else 0, d), outs)
     for ft in prog['features']:
         chk.dist('prog_features', ft)
     chk.dist('prog_modules', prog['nmodules'])
@@ -256,12 +382,8 @@ def one_program(chk, exe, rng, k, quick):
 
 
 def report(chk, exe, res):
-    prog, specs, cs, opt, d, outs = res
-    ref = 0
-    if d == 0:   # the reference run itself failed: compare against the next clean one if any
-        specs2 = [specs[0], specs[1]]
-    else:
-        specs2 = [specs[0], specs[d]]
+    prog, specs, cs, opt, (ref, d), outs = res
+    specs2 = [specs[ref], specs[d]]
     text, calls = shrink_prog(exe, prog['text'], specs2, cs, opt)
     p = write_prog(text, 'final')
     outs2 = run_prog(exe, p, specs2, calls, opt)
@@ -305,7 +427,7 @@ def run(chk):
             d = disagree(outs)
             if d is not None:
                 found += 1
-                report(chk, exe, (dict(text=j['text'], features=['corpus']), specs, j['calls'], j.get('opt', 2), d, outs))
+                report(chk, exe, (dict(text=j['text'], features=['corpus']), specs, j['calls'], j.get('opt', 2), (1 if d == 0 else 0, d), outs))
     # Recorded limitation (KNOWN_FINDINGS sig lazybb-far-code): lazy-BB generation needs every code region of the
     # context within +-2 GiB (rel32 in bb thunks / bb branches: _MIR_get_bb_thunk and _MIR_replace_bb_thunk truncate
     # silently -- coq: replace_bb_thunk_far_refuted --, setup_rel32 exits "too big offset").  Witness = a program run
@@ -327,6 +449,10 @@ def run(chk):
     for site in sorted(open_witness_sites(chk, exe)):
         chk.finding('gen-died:' + site, dict(kind='open-witness', corpus='corpus/c03_open_O2.jsonl', site=site),
                     'a recorded -O2/-O3 witness of corpus/c03_open_O2.jsonl kills the generator again at %s' % site)
+    # register-file boundary signatures first (a fixed sweep, ~10 s)
+    found += run_abi(chk, exe)
+    if found >= 3:
+        return True
     seen_sites = set()
     for k in range(nprog):
         res, deaths = one_program(chk, exe, rng, k, quick)
